@@ -5,7 +5,7 @@ import json, os, sys
 V = "/verif"
 CHECKS = {
  "C01": ("exploration", "3.C01",
-   "Bounded-exhaustive exploration on the real compiler and evaluator: every builder-accepted program of depth 1 (and planner-relevant depth 2) over the MPC-compilable alphabet plus curated sort/permutation/join/custom-op/call-iterate programs, crossed with all owner vectors, all 8 output subsets, 3 inline modes, boundary input vectors, 3 seeds and degenerate PRF tapes; the revealed value / the sum of the three shares must equal plaintext evaluation.",
+   "Bounded-exhaustive exploration on the real compiler and evaluator: every builder-accepted program of depth 1 (and planner-relevant depth 2) over the MPC-compilable alphabet plus curated sort/permutation/join/custom-op/call-iterate programs, crossed with all owner vectors, all 8 output subsets (plus the 8 output-party lists in non-ascending order on a reduced cross), 3 inline modes, boundary input vectors, 3 seeds and degenerate PRF tapes (all-zero, all-ones; for joins: two of the three Cuckoo hash functions identical); the revealed value / the sum of the three shares must equal plaintext evaluation.",
    "SimpleEvaluator on the source graph is the reference (tied to the documented semantics by C10); program depth <= 2, <= 3 inputs, small shapes; integer inputs from a boundary alphabet.",
    "bounded-exhaustive program x configuration x input x tape enumeration on the real compile+evaluate pipeline"),
  "C02": ("model_checking", "3.C02",
@@ -17,7 +17,7 @@ CHECKS = {
    "PRF idealisation bound by conformance replay; covers only bit-typed and 8-bit-linear protocol families (tape space of A2B/B2A, OT, truncation, sort, join is out of reach and NOT claimed).",
    "exhaustive random-tape enumeration of three-party executions, view-multiset comparison"),
  "C04": ("exploration", "3.C04",
-   "Structural scan of every compiled/optimised context of the C01 program space plus protocols drawing several masks per key and bodies inlined 1..17 times (PRF counters pairwise distinct, non-zero, at two pipeline stages), and exhaustive enumeration of small inlined graphs with Random/PRF nodes given to the optimiser (no randomising node turned into a constant, merged, duplicated, or dropped while output-relevant).",
+   "Structural scan of every compiled/optimised context of the C01 program space plus protocols drawing several masks per key and bodies inlined 1..17 times (PRF counters pairwise distinct, non-zero, at two pipeline stages and after applying the numbering pass once more), the numbering pass on every small graph whose PRF nodes already carry counters, and exhaustive enumeration of small inlined graphs with Random/PRF nodes given to the optimiser (no randomising node turned into a constant, merged, duplicated, or dropped while output-relevant).",
    "structural oracle only; semantic preservation by the optimiser is C06.",
    "bounded-exhaustive enumeration of compiler outputs and optimiser inputs with a structural oracle"),
  "C05": ("exploration", "3.C05",
@@ -25,7 +25,7 @@ CHECKS = {
    "scripted PRF answers model the PRF as an arbitrary function; wider types boundary alphabets only.",
    "exhaustive input x random-mask enumeration on the real compiled truncation protocols"),
  "C06": ("exploration", "3.C06",
-   "Bounded-exhaustive inlined graphs over the constructs the four optimiser passes rewrite x inputs, executed node by node before and after optimize_context with replayed randomness: mapped nodes equal, same output, input interface kept, Send annotations kept on same-valued nodes, stored types equal re-inferred types, reload and re-evaluate.",
+   "Bounded-exhaustive inlined graphs over the constructs the four optimiser passes rewrite x inputs, x 10 decoration variants, executed node by node before and after optimize_context with replayed randomness: mapped nodes equal, same output, input interface kept, Send annotations kept on same-valued nodes, stored types equal re-inferred types, reload and re-evaluate.",
    "generated graphs of depth <= 2-3 over a fixed alphabet; compiled contexts of the C01 quick space as the optimiser's real workload.",
    "bounded-exhaustive program enumeration with node-by-node differential execution"),
  "C07": ("exploration", "3.C07",
@@ -33,7 +33,7 @@ CHECKS = {
    "the evaluator's native Call/Iterate is the oracle.",
    "bounded-exhaustive enumeration of lengths x modes x bodies x inputs"),
  "C08": ("exploration", "3.C08",
-   "Every pair (thorough: triple) of library custom operations x parameterisations x argument types, used once/twice/nested: run_instantiation_pass must succeed, distinct parameterisations must not collide or be shared, and the instantiated context must evaluate like a per-node reference walk.",
+   "Every pair (thorough: triple) of library custom operations x parameterisations x argument types, used once/twice/nested, plus harness-defined user operations (named auxiliary graphs and nodes, self-nesting, several auxiliary graphs) in all pairs and nestings among themselves: run_instantiation_pass must succeed, distinct parameterisations must not collide or be shared, and the instantiated context must evaluate like a per-node reference walk.",
    "reference = each custom op instantiated alone (the configuration the repo's unit tests cover).",
    "bounded-exhaustive enumeration of operation combinations"),
  "C09": ("exploration", "3.C09",
@@ -73,11 +73,11 @@ CHECKS = {
    "widths > 8 boundary alphabets.",
    "exhaustive operand-pair enumeration"),
  "C18": ("exploration", "3.C18",
-   "All key columns for small tables (stable sort oracle), all integer key types, all permutations n <= 6, compiled secure sort and permutation in global and three-party execution with scripted permutation tapes.",
-   "table sizes bounded (n <= 5-8 rows).",
+   "All key columns for small tables and every periodic key column for long tables (16..200 rows) against a stable-sort oracle, all integer key types, all permutations n <= 6, compiled secure sort and permutation in global and three-party execution with scripted permutation tapes.",
+   "exhaustive key columns only for n <= 5-12 rows; long tables with periodic keys only.",
    "exhaustive table / permutation enumeration"),
  "C19": ("exploration", "3.C19",
-   "All pairs of small tables with nulls and unique live keys x 4 join types x masked/unmasked against a reference join written from the documentation; compiled join in global and three-party execution for owner configurations.",
+   "All pairs of small tables with nulls and unique live keys x 4 join types x masked/unmasked against a reference join written from the documentation; compiled join in global and three-party execution for owner configurations, also with two identical hash functions scripted.",
    "tables <= 3 rows, key domain of 4 values.",
    "exhaustive table-pair enumeration against a reference model"),
  "C20": ("exploration", "3.C20",
